@@ -437,6 +437,11 @@ impl<'l> StringTokenizer<'l> {
         'outer: loop {
             if let Some(next) = self.scanner.peek() {
                 match next {
+                    // hexadecimal digits (including 'e', which is not an exponent here)
+                    'a'..='f' | 'A'..='F' if base == 16 => {
+                        working.push(next);
+                        self.scanner.next();
+                    }
                     '0' => {
                         working.push(next);
                         self.scanner.next();
